@@ -134,17 +134,24 @@ func (st *deepState) walkFrom(b *ssa.BasicBlock, from int, pred *ssa.BasicBlock,
 		b    *ssa.BasicBlock
 		from int
 		pred *ssa.BasicBlock
+		env  phiEnv // flags (bool phis, phis compared with one constant) whose value is known on this path
 	}
-	type key struct{ b, pred *ssa.BasicBlock }
+	type key struct {
+		b, pred *ssa.BasicBlock
+		env     string
+	}
 	vis := map[key]bool{}
 	returned := false
-	work := []item{{b, from, pred}}
+	work := []item{{b, from, pred, nil}}
+	if from == 0 {
+		work[0].env = phiEnv{}.enter(b, pred, st.r.Assume)
+	}
 	for len(work) > 0 {
 		it := work[len(work)-1]
 		work = work[:len(work)-1]
 		phiBranch := phiDecidedBranch(it.b)
 		if it.from == 0 {
-			k := key{it.b, nil}
+			k := key{it.b, nil, it.env.key()}
 			if phiBranch != nil {
 				k.pred = it.pred
 			}
@@ -187,8 +194,32 @@ func (st *deepState) walkFrom(b *ssa.BasicBlock, from int, pred *ssa.BasicBlock,
 		if stopped {
 			continue
 		}
+		// a branch on a flag whose value is known on this path
+		known, kv := false, false
+		if ifi, ok := lastInstr(it.b).(*ssa.If); ok {
+			c, pol := StripNot(ifi.Cond, true)
+			if ph, ok := c.(*ssa.Phi); ok {
+				if v, ok := it.env[ph]; ok {
+					known, kv = true, v == pol
+				}
+			}
+			if v, ok := st.r.Assume[c]; ok {
+				known, kv = true, v == pol
+			}
+			if ph, k := cmpPhiOf(c); ph != nil && !known {
+				if k0, isCmp := cmpPhis(it.b.Parent())[ph]; isCmp && sameConst(k0, k) {
+					if eq, ok := it.env[ph]; ok {
+						truth := eq == (c.(*ssa.BinOp).Op == token.EQL)
+						known, kv = true, truth == pol
+					}
+				}
+			}
+		}
 		for si, s := range it.b.Succs {
 			if st.r.StopEdge != nil && st.r.StopEdge(it.b, s) {
+				continue
+			}
+			if known && ((kv && si != 0) || (!kv && si != 1)) {
 				continue
 			}
 			if errCall != nil && errKnown != 0 {
@@ -198,7 +229,7 @@ func (st *deepState) walkFrom(b *ssa.BasicBlock, from int, pred *ssa.BasicBlock,
 					}
 				}
 			}
-			if phiBranch != nil && it.pred != nil && it.from == 0 {
+			if !known && phiBranch != nil && it.pred != nil && it.from == 0 {
 				if v, ok := phiConstFrom(phiBranch, it.b, it.pred); ok {
 					if (v && si != 0) || (!v && si != 1) {
 						continue
@@ -217,7 +248,7 @@ func (st *deepState) walkFrom(b *ssa.BasicBlock, from int, pred *ssa.BasicBlock,
 					}
 				}
 			}
-			work = append(work, item{s, 0, it.b})
+			work = append(work, item{s, 0, it.b, it.env.enter(s, it.b, st.r.Assume)})
 		}
 	}
 	return returned
